@@ -27,9 +27,16 @@ pub struct Hooks {
     /// Should writes be read back and compared?
     pub readback_enabled: fn() -> bool,
     /// What was persisted for `id` was read back; `equal` says whether it compared equal
-    /// to the value in memory, when that could be determined, `same_bytes` whether
-    /// persisting it again gives the bytes the value in memory persists to.
-    pub readback: fn(ty: &'static str, id: &dyn Debug, equal: Option<bool>, same_bytes: bool),
+    /// to the value in memory, when that could be determined; `original` is what the value
+    /// in memory persists to and `restored` what the value read back persists to (None if
+    /// writing it again panicked).
+    pub readback: fn(
+        ty: &'static str,
+        id: &dyn Debug,
+        equal: Option<bool>,
+        original: &[u8],
+        restored: Option<&[u8]>,
+    ),
     /// A writer for the persisted form of `id` at `path` was opened.
     pub wrap_writer: fn(id: &dyn Debug, path: &Path, inner: Box<dyn Write>) -> Box<dyn Write>,
     /// A reader for the persisted form of `id` at `path` was opened.
@@ -88,9 +95,15 @@ pub fn readback_enabled() -> bool {
 }
 
 #[inline]
-pub fn readback(ty: &'static str, id: &dyn Debug, equal: Option<bool>, same_bytes: bool) {
+pub fn readback(
+    ty: &'static str,
+    id: &dyn Debug,
+    equal: Option<bool>,
+    original: &[u8],
+    restored: Option<&[u8]>,
+) {
     if let Some(h) = HOOKS.get() {
-        (h.readback)(ty, id, equal, same_bytes)
+        (h.readback)(ty, id, equal, original, restored)
     }
 }
 
